@@ -270,6 +270,10 @@ def plan(prop, tier):
         pops = ["Union", "Inter", "Diff", "CovDiff", "UnionMut"]
         return [TableJob("c18_u2", mut + obs, mut + obs, hosts='{"0","2"}' if q else '{"0","1","2"}', maxcount=2, maxnodes=3, timeout=600,
                          targets=targets(hostful) + targets(["u32"], ("set",))),
+                # host bits right at the full-width boundary (host parts of 0, 1 or 2 bits)
+                TableJob("c18_bnd", (["Insert", "Remove", "RemoveKeepTree", "ViewSet"] if q else mut) + obs,
+                         (["Insert", "Remove", "RemoveKeepTree", "ViewSet"] if q else mut) + obs, hosts='{"0","1"}', base="<<1>>", maxcount=2, maxnodes=3, timeout=900,
+                         targets=targets(["u8", "u32", "Ipv6Net", "Ipv4Inet"] if q else hostful, ("map",), ("stretch:2",))),
                 PairJob("c18_pairs", IR, IR, pops, 2, 2, hosts='{"0","2"}', timeout=200 if q else 2400, nodes_a=2 if q else 3, nodes_b=2,
                         targets=[(t, "map-map", "plain") for t in (["u32", "Ipv6Net"] if q else hostful)])]
     if prop == "C20":
